@@ -26,6 +26,7 @@ typedef struct CertSpec {
 	int pathlen;            /* -1 none */
 	int key_usage;          /* bits, 0 = no keyUsage ext */
 	int64_t not_before, not_after;
+	int eku;                /* 0: no extendedKeyUsage, 1: serverAuth, 2: clientAuth */
 } CertSpec;
 
 typedef struct Ident {      /* a key and its certificate */
@@ -64,6 +65,8 @@ int creds_issue(const CertSpec *spec, const SM2_KEY *subject_key,
 int creds_make_name(const char *cn, uint8_t *name, size_t *namelen);
 int creds_build(CredSet *cs, int depth, int tlcp);
 const CredSet *creds_get(int depth, int tlcp);          /* cached, honest */
+const CredSet *creds_get_eku(int depth, int tlcp);      /* same shape; leaves carry extendedKeyUsage serverAuth / clientAuth */
+extern int g_junk_sig_node, g_junk_sig_form, g_junk_sig_fired; extern uint64_t g_junk_sig_seed;   /* creds.c: prover whose signatures are junk */
 size_t creds_extra_roots(int n, uint8_t *out, size_t cap);   /* n unrelated self-signed roots (cached) */
 void creds_chain(const CredSet *cs, int server, uint8_t *out, size_t *outlen);
 
